@@ -3,6 +3,9 @@ real `apply_to` (serial, forced completion orders through a replaced
 `cogent3.app.composable.PAR.as_completed`, or real loky workers) into a real
 DataStoreDirectory through the real `write_json` writer, and reports the final
 store, the main() invocations and the single-call results."""
+import contextlib
+import glob
+import io
 import json
 import os
 import pickle
@@ -269,15 +272,28 @@ def run_phase(tmp, ph, pi, store="dir"):
 
     # list(app.as_completed(inputs)) of the composed app without writer (same completion order as the apply_to below)
     asc_app = build_chain(ph["specs"], os.path.join(tmp, f"asc_{pi}.txt"), {})
+    real = ph.get("real")
+    opts = ph.get("opts") or {}
+    par_kw = None
+    if real:
+        par_kw = {k: v for k, v in real.items() if k in ("max_workers", "if_serial", "chunksize")}
+    show = bool(opts.get("show_progress", False))
+    sink = io.StringIO()
     try:
-        if ph.get("sched") is not None and not ph.get("real"):
-            C.PAR.as_completed = permuting(ph["sched"])
-            res = list(asc_app.as_completed(inputs, parallel=True, show_progress=False))
-        else:
-            res = list(asc_app.as_completed(inputs, show_progress=False))
+        with contextlib.redirect_stdout(sink):   # stdout carries the JSON lines of this runner
+            if real:
+                C.PAR.as_completed = ORIG_AS_COMPLETED
+                res = list(asc_app.as_completed(inputs, parallel=True, par_kw=dict(par_kw), show_progress=show))
+            elif ph.get("sched") is not None:
+                C.PAR.as_completed = permuting(ph["sched"])
+                res = list(asc_app.as_completed(inputs, parallel=True, show_progress=show))
+            else:
+                res = list(asc_app.as_completed(inputs, show_progress=show))
+        asc = sorted((canon_value(getattr(r, "obj", r)) for r in res), key=repr)
+    except Exception as e:  # noqa: BLE001
+        asc = [["as_completed raised", type(e).__name__, str(e)[:120]]]
     finally:
         C.PAR.as_completed = ORIG_AS_COMPLETED
-    asc = sorted((canon_value(getattr(r, "obj", r)) for r in res), key=repr)
     if store == "sqlite":
         ds = DataStoreSqlite(os.path.join(tmp, "out.sqlitedb"), mode=mode)
         writer = cio.write_db(data_store=ds)
@@ -285,19 +301,36 @@ def run_phase(tmp, ph, pi, store="dir"):
         ds = DataStoreDirectory(os.path.join(tmp, "out"), mode=mode, suffix="json")
         writer = cio.write_json(data_store=ds)
     app = build_chain(ph["specs"], calls_file, delays) + writer
-    kw = dict(show_progress=False)
+    kw = dict(show_progress=show)
     kw["logger"] = None if ph.get("logging") else False
-    real = ph.get("real")
+    given_log = None
+    if ph.get("logging") and opts.get("logger") == "given":
+        from scitrack import CachingLogger
+
+        given_log = os.path.join(tmp, f"given_{pi}.log")
+        lg = CachingLogger(create_dir=True)
+        lg.log_file_path = given_log
+        kw["logger"] = lg
+    if "cleanup" in opts:
+        kw["cleanup"] = bool(opts["cleanup"])
     if real:
         C.PAR.as_completed = ORIG_AS_COMPLETED
-        kw.update(parallel=True, par_kw=dict(max_workers=int(real["max_workers"])))
+        kw.update(parallel=True, par_kw=dict(par_kw))
     elif ph.get("sched") is not None:
         C.PAR.as_completed = permuting(ph["sched"])
         kw.update(parallel=True)
     out = dict(singles=singles, asc=asc)
+    logs_before = set(glob.glob(os.path.join(tmp, "*.log")))
     try:
-        res = app.apply_to(inputs, **kw)
+        with contextlib.redirect_stdout(sink):
+            res = app.apply_to(inputs, **kw)
         assert res is ds
+        if ph.get("logging"):
+            # cleanup=True (default): the scitrack log file is removed after being copied into the store
+            left = sorted(set(glob.glob(os.path.join(tmp, "*.log"))) - logs_before)
+            want = 0 if kw.get("cleanup", True) else 1
+            if len(left) != want:
+                out["opt_problem"] = f"cleanup={kw.get('cleanup', True)}: {len(left)} log file(s) left next to the store"
     except Exception as e:  # noqa: BLE001
         import traceback
 
